@@ -16,6 +16,7 @@ import json
 import os
 import re
 import shutil
+import zlib
 
 import vlib
 
@@ -127,25 +128,39 @@ def run(tier):
                                             'baseline_slots': st['baseline_slots'], 'baseline_statements': st['baseline_statements']})
                 for k in ('cases', 'reached_sql', 'rejected', 'inexpressible', 'mismatches'):
                     a[k] += st[k]
+                for k in ('baseline_slots', 'baseline_statements'):
+                    a[k] = max(a[k], st[k])
             for c, n in (o.get('classes_reached') or {}).items():
                 classes[c] = classes.get(c, 0) + n
         total_cases = sum(o['cases'] for o in outs)
         mism = [m for o in outs for m in (o.get('mismatches') or [])]
-        # ---- verdicts: one violation per (kind, mechanism, position family), shortest witness
-        viols = []
-        groups = {}
+        # ---- verdicts: one violation per (kind, mechanism, MINIMAL failing abstract string, position family).
+        # A failing string is minimal when none of its proper substrings fails in the same family with the same kind, so
+        # the signature names the root cause (B = backslash, Q = quote, % ...) and is the same for every seed.
+        failing = {}
+        for o in outs:
+            for k, lst in (o.get('failing') or {}).items():
+                failing.setdefault(k, set()).update(lst)
+        records = {}
         for m in mism:
-            fam = m['position'].split('@')[0]
-            sig = '%s|%s|%s' % (m['kind'], m['group'], fam)
-            cur = groups.get(sig)
-            if cur is None or (len(m['abstract']), m['abstract']) < (len(cur['abstract']), cur['abstract']):
-                groups[sig] = m
-        for sig, m in sorted(groups.items()):
-            n = sum(st['mismatches'] for name, st in stats.items() if name.split('@')[0] == m['position'].split('@')[0])
-            msg = ('%s: request string %s (user string %s) in position %s: %s; expected %s, observed %s. %s [%d failing cases in this position family]'
-                   % (m['kind'], m['s_quoted'], m['user_string_quoted'], m['position'], m['detail'], m['expected_literal'] or '-', m['observed_literal'] or '-', m['judgement'], n))
-            path = vlib.save_replay('C10', re.sub(r'[^A-Za-z0-9]+', '_', sig)[:100], m)
-            viols.append({'property': 'C10', 'signature': sig, 'msg': msg, 'replay': path})
+            records[(m['position'].split('@')[0], m['kind'], m['abstract'])] = m
+        viols = []
+        for k, fs in sorted(failing.items()):
+            fam, kind, group = k.rsplit('|', 2)
+
+            def proper_subs(a):
+                return {a[i:j] for i in range(len(a) + 1) for j in range(i, len(a) + 1) if j - i < len(a)}
+            minimal = sorted((a for a in fs if not (proper_subs(a) & fs)), key=lambda a: (len(a), a))
+            for a in minimal[:3]:
+                m = records.get((fam, kind, a))
+                if m is None:
+                    raise vlib.Infra('no detail kept for minimal witness %r of %s' % (a, k))
+                sig = '%s|%s|%s|%s' % (kind, group, a if a else 'EMPTY', fam)
+                msg = ('%s: request string %s (classes %s; user string %s) in position %s: %s; expected %s, observed %s. %s [%d failing abstract strings in this position family, minimal ones: %s]'
+                       % (kind, m['s_quoted'], a, m['user_string_quoted'], m['position'], m['detail'], m['expected_literal'] or '-', m['observed_literal'] or '-',
+                          m['judgement'], len(fs), ' '.join(x if x else 'EMPTY' for x in minimal[:12])))
+                path = vlib.save_replay('C10', '%s_%08x' % (re.sub(r'[^A-Za-z0-9]+', '_', sig)[:90], zlib.crc32(sig.encode())), m)
+                viols.append({'property': 'C10', 'signature': sig, 'msg': msg, 'replay': path})
         # ---- consistency of spec and code (never a verdict by itself)
         if conf['mismatch_count'] and not viols:
             raise vlib.Infra('Escape.tla no longer describes the code (%d differences, e.g. %s) and no request shows a violation: update the spec'
@@ -155,7 +170,7 @@ def run(tier):
         if like_violated and not any(v['signature'].startswith('value|doLike') or v['signature'].startswith('lexfail|doLike') or v['signature'].startswith('structure|doLike') for v in viols):
             raise vlib.Infra('TLC reports LikeValue violated on Escape.tla (string %s) but no line-filter position of the real code reproduces it' % like_witness)
         # ---- vacuity
-        if len(stats) < 150:
+        if len(stats) < 160:
             raise vlib.Infra('only %d positions were exercised' % len(stats))
         for name, st in stats.items():
             if st['cases'] == 0:
@@ -186,7 +201,7 @@ def run(tier):
                 'assumptions': ['ClickHouse tokenises and decodes string literals and LIKE patterns as harness/chsql does (Lexer.cpp / parseComplexEscapeSequence / likePatternToRegexp)',
                                 'a character class stands for its representatives (several per class, drawn per seed); strings longer than 5 classes are not enumerated: the transducers look at one character of context',
                                 'the database session sees exactly the statements recorded by the fakesql handler; answers are empty result sets',
-                                'quick tier: strings longer than 2 classes go to one host shape of the primary positions only (all LIKE positions, 1/4 of the others per string)']}
+                                'strings of up to 2 classes go to every position and host query shape; longer ones to one host shape per position family (thorough: length 3 to every family, sampled longer ones to the primary families; quick: primary families only, all LIKE positions and 1/4 of the others per string)']}
     finally:
         shutil.rmtree(sd, ignore_errors=True)
         vlib.tlc_cleanup(main)
